@@ -490,6 +490,14 @@ class GhostGroup:
 
 
 class GhostZip:
+    """An archive being written (append-only).  Ghost state:
+       count     number of entries written
+       names     Array String->Bool: the archive names present
+       conforms  HISTORY variable: every entry written so far was the one `expect(index)` = (source, archive name) asked for
+                 (`expect` is installed by the contract that states what the archive should contain; entries can neither be
+                 overwritten nor removed, so this is equivalent to the quantified statement over all entries)
+       valid     the central directory has been written (the archive can be opened)"""
+
     _pyvc_value = True
 
     def __init__(self, w, path, mode):
@@ -497,11 +505,19 @@ class GhostZip:
         self.path = path
         self.mode = mode
         self.count = z3.IntVal(0)
-        self.src = z3.K(INT, z3.StringVal(""))
-        self.arc = z3.K(INT, z3.StringVal(""))
-        self.valid = False      # central directory written (archive readable)
+        self.names = z3.K(STR, z3.BoolVal(False))
+        self.conforms = z3.BoolVal(True)
+        self.expect = None
+        self.valid = False
         self.closed = False
-        self.stamps = []        # (root group, stamp) of every group tree alive when an entry was written
+
+    def set_expectation(self, expect):
+        """Only before the first entry is written (otherwise the history is unknown)."""
+        if self.expect is None:
+            c = z3.simplify(self.count)
+            self.expect = expect
+            if not (z3.is_int_value(c) and c.as_long() == 0):
+                self.conforms = z3.BoolVal(False)
 
     def write(self, filename, arcname=None, *a, **kw):
         ctx = self.w.ctx
@@ -510,8 +526,12 @@ class GhostZip:
         may_fault(ctx, "ZipFile.write")
         f = sterm(filename)
         a_ = sterm(arcname) if arcname is not None else f
-        self.src = z3.Store(self.src, self.count, f)
-        self.arc = z3.Store(self.arc, self.count, a_)
+        if self.expect is not None:
+            es, ea = self.expect(self.count)
+            self.conforms = z3.simplify(z3.And(self.conforms, f == es, a_ == ea))
+        else:
+            self.conforms = z3.BoolVal(False)
+        self.names = z3.Store(self.names, a_, z3.BoolVal(True))
         self.count = z3.simplify(self.count + 1)
         self.w.effects += 1
 
@@ -529,8 +549,8 @@ class GhostZip:
         c = z3.Int(f"{n}_count")
         ctx.assume(c >= 0)
         self.count = c
-        self.src = z3.Const(f"{n}_src", z3.ArraySort(INT, STR))
-        self.arc = z3.Const(f"{n}_arc", z3.ArraySort(INT, STR))
+        self.names = z3.Const(f"{n}_names", z3.ArraySort(STR, BOOL))
+        self.conforms = z3.Bool(f"{n}_conforms")
 
 
 class GhostTmpDir:
